@@ -10,19 +10,23 @@ Property theorems only; the lemmas are in `Gsu/Proofs/Chain.lean`, `Gsu/Proofs/H
 The definitions (`writeChainWith`, `readChain`, `trieOps` …) are the ones `drv_c15` executes.
 
 Status.
-* Chain part (second sentence): FULL, for any lawful in-memory map `ops` (`MapLaws`) and ANY merge
-  schedule — `chain_roundtrip`, `chain_inv`, `ages_sorted`, `lastmod_ge_age`.
-* Map part (first sentence), `hamt_map`: the statement is `MapLaws (trieOps hf) (WF hf)` for every
-  hash function `hf`; it is NOT proved here (see `hamt_map_partial`): the trie mirror is tied to
-  the Go code, and its map behaviour checked, only by the correspondence suite (every forEach dump,
-  Get, Delete result and every frozen version compared; direct oracle against a Go map).
+* Map part (first sentence): `hamt_map` — FULL for the functional trie mirror: for every hash function
+  the trie is a lawful map (`MapLaws (trieOps hf) (WFR hf)`), so all chain theorems apply to it with
+  no hypothesis left (`trie_chain_roundtrip`, `trie_meta_roundtrip`).
+* Chain part (second sentence): FULL, for any lawful in-memory map and ANY merge schedule, including
+  sessions reopened from disk — `chain_inv`, `chain_roundtrip`, `ages_sorted`, `lastmod_ge_age`.
+* db19/meta level: the `created` protocol (PutNew / alter / RenameTable / Drop / persist / reopen) is
+  sound — `meta_inv`, `meta_drop_sound`, `meta_roundtrip` (model `Gsu.Model.MetaProto`, with fixes
+  12 and 45; not replayed by a driver, tied by the `meta` suite's reopen oracle only).
 * `hamt_persistent` over an explicit node heap with generations: not modelled (values of the
-  mirror are immutable); tied by the suite's re-read of every frozen version after every op.
+  mirror are immutable); tied by the suite's re-read of every frozen version after every op
+  (seeded change C15-1 is caught there).
 -/
 import Gsu.Proofs.Chain
 import Gsu.Proofs.ChainRead
 import Gsu.Proofs.MetaProto
 import Gsu.Proofs.HamtGen
+import Gsu.Proofs.Hamt
 namespace Gsu.Props.C15
 open Gsu.Hamt
 
@@ -169,19 +173,38 @@ theorem gen_digits (h : Nat) :
     digits h = (List.range nLevels).map fun i => (h / 2 ^ (Gsu.Gen.Hamt.bitsPerItemNode * i)) % 32 :=
   digits_eq h
 
-/-- **hamt_map** (PARTIAL). Full statement: `∀ hf, MapLaws (trieOps hf) (WF hf)` for a structural
-invariant `WF` of the trie (val in the slot of its hash digit, child only under a val, children
-non-empty, keys unique) — with it every theorem above applies to the trie.  Proved here: only the
-empty-trie laws.  Missing: `get_put`, `get_del` (with `pullUp`), `mem_all` for the slot-list
-mirror; until then they are checked by the correspondence suite, not proved. -/
-theorem hamt_map_partial (hf : Nat → Nat) (k : Nat) :
-    (trieOps hf).get (trieOps hf).empty k = none ∧ (trieOps hf).all (trieOps hf).empty = [] := by
-  refine ⟨?_, rfl⟩
-  show Gsu.Hamt.get k (digits (hf k)) T.nil = none
-  generalize digits (hf k) = ds
-  induction ds with
-  | nil => rfl
-  | cons d ds ih => simp only [Gsu.Hamt.get, slotGet]; exact ih
+/-- **hamt_map**: for ANY hash function the trie (`get`/`with`/`without`/`pullUp`/`forEach` mirror,
+collisions pushed down to overflow nodes) is a lawful map on well-formed roots: `WFR` holds for the
+empty trie and is preserved by put and delete; `get` after `put`/`delete` is map update/removal;
+`get` only returns items stored under that key; `all` lists exactly the items `get` finds. -/
+theorem hamt_map (hf : Nat → Nat) : MapLaws (trieOps hf) (WFR hf) where
+  ok_empty := wfr_empty hf
+  get_empty := trie_get_empty hf
+  ok_put := fun m x h => wfr_put hf m x h
+  get_put := fun m x k _ => trie_get_put hf m x k
+  ok_del := fun m k h => wfr_del hf m k h
+  get_del := fun m k k' h => trie_get_del hf m k k' h
+  get_key := fun m k x _ h => trie_get_key hf m k x h
+  mem_all := fun m x h => trie_mem_all hf x h.1
+
+/-- `all` never lists two items with the same key -/
+theorem hamt_keys_unique (hf : Nat → Nat) (t : T) (h : WFR hf t) (x y : Item)
+    (hx : x ∈ (trieOps hf).all t) (hy : y ∈ (trieOps hf).all t) (hk : y.key = x.key) : y = x :=
+  key_unique nLevels (fun k => digits (hf k)) (fun _ => digits_length _) t h.1 x y hx hy hk
+
+/-- `chain_roundtrip` for the trie the code uses, with no hypothesis left -/
+theorem trie_chain_roundtrip (hf : Nat → Nat) {c : Chain T} (hr : Reach (trieOps hf) c)
+    (merge id : Nat) (hm : merge ≤ c.chunks.length) (rc : Chain T)
+    (hread : readChain (trieOps hf) (writeChainWith (trieOps hf) c merge id).2.chunks = some rc) :
+    ∀ k, live ((trieOps hf).get rc.ht k) = live ((trieOps hf).get c.ht k) :=
+  chain_roundtrip (hamt_map hf) hr merge id hm rc hread
+
+/-- `meta_roundtrip` for the trie, with no hypothesis left -/
+theorem trie_meta_roundtrip (hf : Nat → Nat) {s : MState T} (hr : MReach (trieOps hf) s)
+    (merge id : Nat) (hm : merge ≤ s.c.chunks.length) (rc : Chain T)
+    (hread : readChain (trieOps hf) (mWrite (trieOps hf) s merge id).c.chunks = some rc) :
+    ∀ k, live ((trieOps hf).get rc.ht k) = live ((trieOps hf).get s.c.ht k) :=
+  meta_roundtrip (hamt_map hf) hr merge id hm rc hread
 
 /-- non-vacuity: a reachable state of the trie-backed chain … -/
 example : Reach (trieOps id) (writeChainWith (trieOps id)
